@@ -112,14 +112,16 @@ type LogRec struct {
 }
 
 type World struct {
-	t       *vt.T
-	prop    string
-	dir     string
-	gen     int
-	st      *stage.Stage
-	lg      *log.FileIO
-	step    int
-	started time.Time
+	early     []Arrival // consumed between two durable steps, not yet judged
+	finalBase string    // non-empty: final directories live here (another file system)
+	t         *vt.T
+	prop      string
+	dir       string
+	gen       int
+	st        *stage.Stage
+	lg        *log.FileIO
+	step      int
+	started   time.Time
 
 	versions  map[string][]*Version // by name
 	byKey     map[string]*Version
@@ -135,6 +137,21 @@ type World struct {
 	Quiet     bool // no trace notes (bulk phases)
 }
 
+// XDevFinal makes the next worlds keep their final directory on another file system (/dev/shm),
+// so that the move into place cannot rename and has to copy. Reset by the caller.
+var XDevFinal bool
+
+func xdevBase() string {
+	if fi, err := os.Stat("/dev/shm"); err != nil || !fi.IsDir() {
+		return ""
+	}
+	d, err := os.MkdirTemp("/dev/shm", "stagex-final")
+	if err != nil {
+		return ""
+	}
+	return d
+}
+
 func NewWorld(t *vt.T, prop string) *World {
 	base := os.Getenv("VT_TMP")
 	dir, err := os.MkdirTemp(base, "stagex")
@@ -144,14 +161,22 @@ func NewWorld(t *vt.T, prop string) *World {
 	w := &World{t: t, prop: prop, dir: dir, versions: map[string][]*Version{}, byKey: map[string]*Version{},
 		shadows: map[string]*shadow{}, positive: map[string]time.Time{}, completed: map[string]bool{}, others: map[string]int{}}
 	w.started = time.Now()
+	if XDevFinal {
+		w.finalBase = xdevBase()
+	}
 	w.boot(false)
 	return w
 }
 
 func (w *World) cur() string      { return filepath.Join(w.dir, fmt.Sprintf("g%d", w.gen)) }
 func (w *World) StageDir() string { return filepath.Join(w.cur(), "stage") }
-func (w *World) FinalDir() string { return filepath.Join(w.cur(), "final") }
-func (w *World) LogDir() string   { return filepath.Join(w.cur(), "log") }
+func (w *World) FinalDir() string {
+	if w.finalBase != "" {
+		return filepath.Join(w.finalBase, fmt.Sprintf("g%d", w.gen))
+	}
+	return filepath.Join(w.cur(), "final")
+}
+func (w *World) LogDir() string { return filepath.Join(w.cur(), "log") }
 
 func (w *World) boot(recover bool) {
 	for _, d := range []string{w.StageDir(), w.FinalDir(), w.LogDir()} {
@@ -173,6 +198,9 @@ func (w *World) Close() {
 		killStage(s)
 	}
 	os.RemoveAll(w.dir)
+	if w.finalBase != "" {
+		os.RemoveAll(w.finalBase)
+	}
 }
 
 // killStage stops the re-arming timers of an abandoned instance so that it
@@ -457,9 +485,13 @@ func (w *World) Restart() {
 	w.Consume()
 	old := w.cur()
 	killStage(w.st)
+	oldFinal := w.FinalDir()
 	w.gen++
 	if err := os.Rename(old, w.cur()); err != nil {
 		w.t.Skip("rename generation: " + err.Error())
+	}
+	if w.finalBase != "" {
+		os.Rename(oldFinal, w.FinalDir())
 	}
 	w.t.Note("#%d restart -> generation %d", w.step, w.gen)
 	w.boot(true)
@@ -505,6 +537,25 @@ func (w *World) Consume() []Arrival {
 		return nil
 	})
 	return out
+}
+
+// consumeEarly: an ingest that looks between two steps of the receiver; what it takes is judged
+// with the next observation.
+func (w *World) consumeEarly() {
+	arr := w.Consume()
+	if len(arr) > 0 {
+		w.mu.Lock()
+		w.early = append(w.early, arr...)
+		w.mu.Unlock()
+	}
+}
+
+func (w *World) takeEarly() []Arrival {
+	w.mu.Lock()
+	defer w.mu.Unlock()
+	e := w.early
+	w.early = nil
+	return e
 }
 
 func (w *World) LogRecords() []LogRec {
